@@ -3114,8 +3114,12 @@ make_task(struct ical_vevent_s *ve)
 	 * an unset max_simul by the value of -1 */
 	ve->t.max_simul--;
 
-	with (echs_instant_t i = echs_instant_to_utc(ve->from)) {
-		ve->till = echs_instant_to_utc(ve->till);
+	/* (how far it is from one date to another is counted in the
+	 * Gregorian calendar, whatever scale they're given in) */
+	with (echs_instant_t i = echs_instant_to_utc(
+		      echs_instant_rescale(ve->from, SCALE_GREGORIAN))) {
+		ve->till = echs_instant_to_utc(
+			echs_instant_rescale(ve->till, SCALE_GREGORIAN));
 		/* transform e.from + e.till into e.dur */
 		if (echs_nul_idiff_p(ve->dur) &&
 		    echs_instant_lt_p(i, ve->till)) {
